@@ -229,3 +229,166 @@ Proof.
     cbn [chopS s_ps s_par s_tape]. destruct (C r Hd) as [_ C2]. now rewrite (C2 Hc).
   - intro Hl. unfold iter. cbn [chopS s_data]. rewrite G2 by lia. reflexivity.
 Qed.
+
+(* ------------------------------------------------------------------ runs of the reference machine *)
+Inductive runs : st -> st -> Prop :=
+| runs_refl : forall s, runs s s
+| runs_step : forall s s1 s2, iter false false s = Continue s1 -> runs s1 s2 -> runs s s2.
+
+Lemma runs_trans : forall a b c, runs a b -> runs b c -> runs a c.
+Proof. induction 1; intros; auto. econstructor; eauto. Qed.
+
+Lemma runs_xstar : forall s s', runs s s' -> xstar true s s'.
+Proof. induction 1; [constructor|]. econstructor; eauto. left; auto. Qed.
+
+Lemma runs_inv : forall s s', runs s s' -> Inv s -> Inv s'.
+Proof. induction 1; intros; auto. apply IHruns. eapply iter_ref_inv; eauto. Qed.
+
+Lemma iter_consumes : forall s s', iter false false s = Continue s' -> length (s_data s') + 2 <= length (s_data s).
+Proof. intros s s' H. destruct (iter_loc s s' 0 H) as [L _]; [lia|exact L]. Qed.
+
+Lemma runs_data_le : forall s s', runs s s' -> length (s_data s') <= length (s_data s).
+Proof. induction 1; auto. apply iter_consumes in H. lia. Qed.
+
+(* a run that stops determines the result of the parser *)
+Lemma runs_result : forall D s x, runs (init D) s -> iter false false s = Done x -> parse_ref D = x.
+Proof.
+  intros D s x H Hd. unfold parse_ref, parse. eapply ref_run; [apply runs_xstar; eauto|exact Hd|cbn; lia].
+Qed.
+
+Lemma loop_runs : forall f s x, loop false false f s = x -> x <> OutOfFuel ->
+  exists sn, runs s sn /\ iter false false sn = Done x.
+Proof.
+  induction f; intros s x H Hx; cbn [loop] in H; [congruence|].
+  destruct (iter false false s) as [s1|y] eqn:E.
+  - destruct (IHf _ _ H Hx) as (sn & A & B). exists sn. split; auto. econstructor; eauto.
+  - subst y. exists s. split; [constructor|auto].
+Qed.
+
+(* every parse is a run that stops with the parser's result *)
+Lemma parse_ref_runs : forall D, exists sn, runs (init D) sn /\ iter false false sn = Done (parse_ref D).
+Proof.
+  intro D. apply (loop_runs (S (length D))); [reflexivity|].
+  pose proof (parse_no_crash false false D) as H. unfold parse_ref. intro E. rewrite E in H. discriminate.
+Qed.
+
+Lemma iter_short : forall fx opt s, length (s_data s) < 2 -> iter fx opt s = Done (finish s).
+Proof.
+  intros fx opt s H. unfold iter, get_split. replace (Nat.leb 2 (length (s_data s))) with false; [reflexivity|].
+  symmetry. apply Nat.leb_gt. exact H.
+Qed.
+
+Lemma iter_done_ok : forall s F, iter false false s = Done (Ok F) ->
+  length (s_data s) < 2 /\ s_par s = 0 /\ s_ps s = Key /\ s_tape s = F.
+Proof.
+  intros s F H. pose proof (iter_ref_done_ok _ _ H) as Hf. split.
+  - destruct (get_split 2 (s_data s)) as [[h d]|] eqn:Eg.
+    + rewrite (iter_ref_unfold _ _ _ Eg) in H.
+      destruct (slow false d (le_word 2 h) (s_ps s) (s_par s) (s_tape s)); discriminate.
+    + unfold get_split in Eg. destruct (Nat.leb 2 (length (s_data s))) eqn:E; [discriminate|]. now apply Nat.leb_gt in E.
+  - unfold finish in Hf. destruct (s_par s); [|discriminate]. destruct (s_ps s); try discriminate. inversion Hf. auto.
+Qed.
+
+(* the run on the chopped input follows the run on the whole input as long as the cut lies behind *)
+Lemma runs_chop : forall s s' r, runs s s' -> r <= length (s_data s') -> runs (chopS r s) (chopS r s').
+Proof.
+  induction 1; intro Hr; [constructor|].
+  pose proof (runs_data_le _ _ H0). pose proof (iter_consumes _ _ H).
+  destruct (iter_loc s s1 r H) as (_ & C & _); [lia|].
+  econstructor; [apply C; lia|auto].
+Qed.
+
+(* the last state of the whole run whose position is not behind the cut *)
+Lemma runs_split : forall s sn r, runs s sn -> r <= length (s_data s) ->
+  exists s1, runs s s1 /\ runs s1 sn /\ r <= length (s_data s1) /\
+             (s1 = sn \/ exists s2, iter false false s1 = Continue s2 /\ runs s2 sn /\ length (s_data s2) < r).
+Proof.
+  induction 1; intro Hr.
+  - exists s. repeat split; auto; constructor.
+  - destruct (le_lt_dec r (length (s_data s1))) as [Hle|Hlt].
+    + destruct (IHruns Hle) as (sa & A & B & C & E). exists sa. repeat split; auto. econstructor; eauto.
+    + exists s. split; [constructor|]. split; [econstructor; eauto|]. split; auto. right. exists s1. auto.
+Qed.
+
+(* ------------------------------------------------------------------ the parse of a chopped input, exactly *)
+Theorem trunc_exact : forall D r s1, runs (init D) s1 -> r <= length (s_data s1) ->
+  (length (s_data s1) < r + 2 -> parse_ref (chop r D) = finish s1) /\
+  (forall s2, iter false false s1 = Continue s2 -> length (s_data s2) < r -> r + 2 <= length (s_data s1) ->
+              parse_ref (chop r D) = Err E_LexEof).
+Proof.
+  intros D r s1 H Hr. pose proof (runs_chop _ _ r H Hr) as Hc. change (chopS r (init D)) with (init (chop r D)) in Hc.
+  split.
+  - intro Hl. apply (runs_result _ _ _ Hc). rewrite iter_short; [reflexivity|].
+    cbn [chopS s_data]. rewrite chop_length. lia.
+  - intros s2 Hi Hlt Hl. apply (runs_result _ _ _ Hc).
+    destruct (iter_loc s1 s2 r Hi Hr) as (_ & _ & C & _). auto.
+Qed.
+
+Definition top (s : st) : Prop := s_par s = 0 /\ s_ps s = Key.
+
+Lemma finish_top : forall s, top s -> finish s = Ok (s_tape s).
+Proof. intros s [A B]. unfold finish. now rewrite A, B. Qed.
+
+Lemma finish_not_top : forall s, ~ top s -> finish s = Err E_Eof.
+Proof.
+  intros s H. unfold finish, top in *. destruct (s_par s); [|reflexivity].
+  destruct (s_ps s); try reflexivity. exfalso; auto.
+Qed.
+
+Lemma top_dec : forall s, {top s} + {~ top s}.
+Proof.
+  intro s. unfold top. destruct (s_par s); [|right; intros [? _]; discriminate].
+  destruct (s_ps s); try (right; intros [_ ?]; discriminate). left; auto.
+Qed.
+
+(* the main statement, without the prefix clause: the whole input is accepted with tape F; the input
+   without its last r bytes is rejected, or accepted with the tape the whole run had built when it
+   stood at a top-level key position (not inside a container, not between a key and the end of its
+   value, not inside a payload), the cut lying AT that position or ONE byte after it.
+   (The one byte: `while let Some((d, token_id)) = parse_next_id_opt(data)` ends as soon as fewer
+   than two bytes are left, a single trailing byte is ignored -- on the whole input as well.) *)
+Theorem trunc_bin_ref : forall D F r, parse_ref D = Ok F -> r <= length D ->
+  (exists e, parse_ref (chop r D) = Err e) \/
+  (exists s sn, runs (init D) s /\ runs s sn /\ iter false false sn = Done (Ok F) /\ top s /\
+                r <= length (s_data s) <= r + 1 /\ parse_ref (chop r D) = Ok (s_tape s)).
+Proof.
+  intros D F r HF Hr. destruct (parse_ref_runs D) as (sn & Hrun & Hdone). rewrite HF in Hdone.
+  destruct (runs_split _ _ r Hrun Hr) as (s1 & A & B & C & E).
+  destruct (trunc_exact D r s1 A C) as [T1 T2].
+  destruct (le_lt_dec (r + 2) (length (s_data s1))) as [Hbig|Hsmall].
+  - destruct E as [->|(s2 & Hi & _ & Hlt)].
+    + apply iter_done_ok in Hdone. lia.
+    + left. exists E_LexEof. eapply T2; eauto.
+  - destruct (top_dec s1) as [Ht|Hn].
+    + right. exists s1, sn. repeat split; auto; try apply Ht; try lia. rewrite T1 by lia. now apply finish_top.
+    + left. exists E_Eof. rewrite T1 by lia. now apply finish_not_top.
+Qed.
+
+(* the contrapositive readings.  s is a state of the run on the whole input (the whole input need
+   not be accepted); the cut lies at the position of s or one byte after it *)
+Theorem trunc_not_top : forall D r s, runs (init D) s -> r <= length (s_data s) <= r + 1 ->
+  ~ top s -> parse_ref (chop r D) = Err E_Eof.
+Proof.
+  intros D r s H Hr Hn. destruct (trunc_exact D r s H) as [T1 _]; [lia|]. rewrite T1 by lia. now apply finish_not_top.
+Qed.
+
+Theorem trunc_in_container : forall D r s, runs (init D) s -> r <= length (s_data s) <= r + 1 ->
+  s_par s <> 0 -> parse_ref (chop r D) = Err E_Eof.
+Proof. intros. eapply trunc_not_top; eauto. intros [A _]. auto. Qed.
+
+Theorem trunc_mid_field : forall D r s, runs (init D) s -> r <= length (s_data s) <= r + 1 ->
+  s_ps s <> Key -> parse_ref (chop r D) = Err E_Eof.
+Proof. intros. eapply trunc_not_top; eauto. intros [_ A]. auto. Qed.
+
+(* the cut lies inside the tokens consumed by the iteration s -> s2 (token id, payload, or the
+   `{` `}` pair in key position), the two bytes of the id being present *)
+Theorem trunc_in_payload : forall D r s s2, runs (init D) s -> iter false false s = Continue s2 ->
+  length (s_data s2) < r -> r + 2 <= length (s_data s) -> parse_ref (chop r D) = Err E_LexEof.
+Proof. intros D r s s2 H Hi Hlt Hl. destruct (trunc_exact D r s H) as [_ T2]; [lia|]. eapply T2; eauto. Qed.
+
+(* and the positive one: cut at (or one byte after) a top-level key position *)
+Theorem trunc_at_top : forall D r s, runs (init D) s -> r <= length (s_data s) <= r + 1 ->
+  top s -> parse_ref (chop r D) = Ok (s_tape s).
+Proof.
+  intros D r s H Hr Ht. destruct (trunc_exact D r s H) as [T1 _]; [lia|]. rewrite T1 by lia. now apply finish_top.
+Qed.
